@@ -611,3 +611,70 @@ func ruleNoRetainedLocations(r *Run, p *Program, rule string) {
 	}
 	r.universe(rule, visited, 8)
 }
+
+// ruleForgetUnlinkAtomic: a segment's slot in datalog.segments is released (set to nil) and its files are unlinked in
+// one exclusive section of DB.mu. The physical id is free for swapSegment as soon as the slot is nil; if a writer can
+// run before the old file is gone, a new file with the same physical id is created next to it, and after a crash
+// openDatalog sees two files for one slot - the later name wins and the other segment's acknowledged records are
+// never replayed.
+func ruleForgetUnlinkAtomic(r *Run, p *Program, rule string) {
+	f := p.Fn("(*pogreb.DB).Compact")
+	if !r.anchor(rule, "(*pogreb.DB).Compact", f != nil) {
+		return
+	}
+	r.fn(funcKey(f))
+	w, _ := lockWalk(p, f, "")
+	acqOf := func(nd Node) map[string]bool {
+		out := map[string]bool{}
+		first := true
+		for st := range w.States[nd] {
+			cur := map[string]bool{}
+			for k := range lockSetParse(st) {
+				if strings.HasPrefix(k, "acq@") {
+					cur[k] = true
+				}
+			}
+			if first {
+				out, first = cur, false
+				continue
+			}
+			for k := range out {
+				if !cur[k] {
+					delete(out, k)
+				}
+			}
+		}
+		return out
+	}
+	var forgets, unlinks []Node
+	for nd := range w.Reached {
+		if st, ok := nd.In.(*ssa.Store); ok && isNilConst(st.Val) {
+			if ia, ok := st.Addr.(*ssa.IndexAddr); ok && fieldName(ia.X) == "pogreb.datalog.segments" {
+				forgets = append(forgets, nd)
+			}
+		}
+		if e := fsEventOf(nd); e != nil && e.Iface == "fs.FileSystem" && e.Method == "Remove" {
+			unlinks = append(unlinks, nd)
+		}
+	}
+	if !r.anchor(rule, "release of a datalog.segments slot and FileSystem.Remove reachable from Compact", len(forgets) > 0 && len(unlinks) > 0) {
+		return
+	}
+	sort.Slice(unlinks, func(i, j int) bool { return unlinks[i].In.Pos() < unlinks[j].In.Pos() })
+	for _, u := range unlinks {
+		held := mustHold(w, u)
+		ua := acqOf(u)
+		same := false
+		for _, fg := range forgets {
+			for k := range acqOf(fg) {
+				if ua[k] {
+					same = true
+				}
+			}
+		}
+		r.check(held["mu:W"] && same, rule, funcKey(u.Ctx.Fn)+":unlink-in-forget-section", p.Pos(instrPos(u.In)),
+			"the segment's files are unlinked with DB.mu held exclusively, in the section that released its slot",
+			"a segment's file is unlinked outside the exclusive section of DB.mu in which its datalog.segments slot was released (held: {"+lockSetString(held)+"}): a writer that rolls over in between reuses the physical id while the old file still exists; after a crash in that window two files claim one slot and the segment whose name sorts first is shadowed - its acknowledged records are not replayed")
+	}
+	r.universe(rule, len(unlinks), 2)
+}
